@@ -103,7 +103,8 @@ def h_api(env):
 
 
 def positions_catalogue():
-    e = EnumDef("E", [("ZERO", 0), ("ONE", 1), ("NEG", -1), ("ALIAS", 1)])
+    # "real", "numerator", "try_value": legal value names that are also attributes of int / of betterproto.Enum (number 2, 3, 4 are not among the candidates)
+    e = EnumDef("E", [("ZERO", 0), ("ONE", 1), ("NEG", -1), ("ALIAS", 1), ("real", 2), ("numerator", 3), ("try_value", 4)])
     m = Shape("M", [
         F("s", 1, "enum", enum="E"), F("r", 2, "enum", "repeated", enum="E"), F("m", 3, "enum", "map", key="int32", enum="E"),
         F("o", 4, "enum", group="g", enum="E"), F("x", 5, "int32", group="g"), F("p", 6, "enum", "optional", enum="E")])  # fmt: skip
@@ -156,9 +157,10 @@ def h_positions(env):
     if not env.sym:
         import pickle
 
-        for member in (mod.E.ZERO, mod.E.NEG, mod.E.ALIAS):
-            p = pickle.loads(pickle.dumps(member))
-            env.check("witness:pickle-keeps-name-and-number", p.name == member.name and p.value == member.value and p == member)
+        for member in list(mod.E) + [mod.E.try_value(v)]:
+            for proto in (2, pickle.HIGHEST_PROTOCOL):
+                p = pickle.loads(pickle.dumps(member, proto))
+                env.check("witness:pickle-keeps-name-and-number", isinstance(p, mod.E) and p.name == member.name and p.value == member.value and p == member, repr(member))
         ref = shapes.build_ref(cat)
         r = ref["M"].FromString(bytes(data))
         env.check("witness:reference-reads-same-numbers", sm.canon_equal(cat, "M", sm.canon_of_ref(cat, "M", r), exp))
@@ -180,7 +182,7 @@ UNIT_PATH_CAP = {"quick": 4000, "thorough": 40000}
 BOUNDS = {
     "quick": "enum definitions with 1..4 members, first number 0, the others chosen by the environment from {0, 1, -1, 5, 2**31-1, -2**31} (so gaps, negatives and aliases "
     "occur in every combination); undefined numbers from the same set plus +-7; field values from {0, 1, -1, 7, -7, 2**31-1, -2**31} in singular / repeated / map-value / "
-    "oneof / optional position. Enum members are C-level int objects, so numbers are environment choices (concrete per path), not solver variables; the all-integers "
+    "oneof / optional position; pickling (protocol 2 and highest) of every member of an enum that also has members named real / numerator / try_value, at every witness. Enum members are C-level int objects, so numbers are environment choices (concrete per path), not solver variables; the all-integers "
     "claim for the enum wire codec is C16's (enum fields use the int32 varint codec).",
     "thorough": "same",
 }
